@@ -1105,7 +1105,11 @@ class Program:
                                 sym_ = self.resolve_expr_symbol(caller.module, a_) if isinstance(a_, (ast.Name, ast.Attribute)) else None
                                 return isinstance(sym_, (FuncInfo, ClassInfo))
                             templated = any(is_ref(a_) for a_ in call.args) or any(is_ref(k_.value) for k_ in call.keywords)
-                            if n_sites.get(fnm, 0) != 1 and not templated:
+                            # (a small private step of the module - a shared validation, an opener - is expanded at each of its
+                            #  few call sites as well: decided below, when its body is known)
+                            multi_site = n_sites.get(fnm, 0) != 1 and not templated
+                            if multi_site and not (isinstance(call.func, ast.Name) and fnm and fnm.startswith('_') and
+                                                   not fnm.startswith('__') and n_sites.get(fnm, 0) <= 12):
                                 continue
                             callee, recv = None, None
                             if isinstance(call.func, ast.Attribute) and isinstance(call.func.value, ast.Name) and \
@@ -1138,6 +1142,8 @@ class Program:
                             body = body_of(callee, want_value)
                             if body is None or any(isinstance(a_, ast.Starred) for a_ in call.args) or \
                                     any(k.arg is None for k in call.keywords):
+                                continue
+                            if multi_site and (len(body) > 4 or callee.cls is not None):
                                 continue
                             if any(isinstance(x, ast.Call) and self._same_callee(callee, x) for b_ in body for x in ast.walk(b_)):
                                 continue
